@@ -614,6 +614,74 @@ func TestC06(t *testing.T) {
 		}
 	}
 	ev.Class("jpeg-all-permutations", 1+2+6+24+int64(ev.Pick(0, 120)))
+	// large profiles: 1 MiB +- , 2 MiB, 4 MiB (quick); 16 MiB and - PNG only, highly compressible - 256 MiB + 4099
+	// (thorough).  "Whatever the profile's size."
+	sizes := []int{1<<20 - 1, 1<<20 + 1, 3<<19 + 5, 2<<20 + 7, 4<<20 + 1}
+	if ev.Thorough() {
+		sizes = append(sizes, 16<<20+3)
+	}
+	mk := func(n int, compressible bool) []byte {
+		b := make([]byte, n)
+		x := uint32(n)*2654435761 + 1
+		for i := range b {
+			if compressible {
+				b[i] = byte(i>>12) ^ byte(i%251)
+			} else {
+				x = x*1664525 + 1013904223
+				b[i] = byte(x >> 24)
+			}
+		}
+		return b
+	}
+	bigCase := func(format string, prof []byte, level int) Case {
+		c := Case{Format: format, W: 7, H: 5, Bits: 8, Class: "intact", Expect: Expect{Kind: "profile", Profile: prof}}
+		switch format {
+		case "PNG":
+			c.Data, _ = build.PNG{W: 7, H: 5, Depth: 8, ColorType: 2, Pre: []build.Chunk{{Type: "gAMA", Data: []byte{0, 0, 0xb1, 0x8f}}, build.ICCPChunk("big", prof, level)}, IDAT: []byte{1}}.Bytes()
+		case "JPEG":
+			var sz []int
+			for n := len(prof); n > 65519; n -= 65519 {
+				sz = append(sz, 65519)
+			}
+			segs := append(build.ICCSegs(prof, sz), build.Seg{Marker: 0xC0, Data: build.SOF(8, 5, 7, [][3]byte{{1, 0x11, 0}})})
+			c.Data, _ = build.JPEG{Segs: segs, SOS: []byte{1, 1, 0, 0, 63, 0}, Entropy: []byte{1}}.Bytes()
+		default:
+			c.Data, _ = build.WebP{Chunks: []build.RIFFChunk{{FourCC: "VP8X", Data: build.VP8XHeader(0x20, 6, 4)}, {FourCC: "ICCP", Data: prof}, {FourCC: "VP8L", Data: build.VP8LHeader(6, 4, false)}}}.Bytes()
+		}
+		c.Desc = fmt.Sprintf("%s with a %d-byte profile (file %d bytes)", format, len(prof), len(c.Data))
+		return c
+	}
+	for _, n := range sizes {
+		for _, format := range []string{"PNG", "JPEG", "WebP"} {
+			for _, compressible := range []bool{false, true} {
+				if format == "JPEG" && n > 255*65519 {
+					continue
+				}
+				if format != "PNG" && compressible {
+					continue
+				}
+				c := bigCase(format, mk(n, compressible), 1)
+				ev.Eval(1)
+				ev.NT(ev.Hash("big", format, n, compressible))
+				if k, w := check(c); k != "" {
+					c.Data, c.Expect.Profile = nil, nil
+					ev.Violation("icc", k, w, c)
+				}
+			}
+		}
+	}
+	if ev.Thorough() {
+		prof := mk(1<<28+4099, true)
+		c := bigCase("PNG", prof, 1)
+		ev.Eval(1)
+		ev.NT(ev.Hash("huge"))
+		if k, w := check(c); k != "" {
+			c.Data, c.Expect.Profile = nil, nil
+			ev.Violation("icc", k, w, c)
+		}
+		prevICC, prevWant, prevCase = nil, nil, nil
+	}
+	ev.Class("large-profiles", int64(len(sizes)*4))
 	n := ev.Pick(600, 10000)
 	for fi, g := range []func(*rapid.T, int) Case{genPNG, func(rt *rapid.T, m int) Case { return genJPEG(rt, m, nil) }, genWebP} {
 		ev.RapidChecks(n)
